@@ -183,6 +183,11 @@ func variants(t *rapid.T, v reflect.Value) interface{} {
 	return v.Interface()
 }
 
+// Strings that collide with others once tuples of values are printed and joined (with ';',
+// ',' or a blank), and the text fmt prints for a nil: a batch that keys its filters by such a
+// rendering merges calls that differ (kept change C10k).
+func init() { sw.AddStrings("a;b", "a;", ";b", "b;", ";", "<nil>", "a,b", "a b", " b", "a ") }
+
 var filterCols = map[string][]string{
 	"row_a": {"id", "shard", "i8", "i16", "i32", "i", "u8", "u16", "u32", "u64", "b", "s", "n", "ni", "by", "t", "MixedCol"},
 	"row_b": {"id", "shard", "p_i", "p_i32", "p_u16", "p_b", "p_s", "p_n", "p_t", "by"},
@@ -204,7 +209,17 @@ type built struct {
 	abandoned int
 }
 
+// collisionPool: a small family of strings of which many pairs of tuples print alike when the
+// values are joined with ';' (("a;b","") and ("a","b;"), ("a;","b") and ("a",";b")), plus the
+// text fmt prints for nil. collisionCols: the text columns of each table.
+var collisionPool = []string{"a", "b", "", "a;b", "b;", "a;", ";b", "<nil>"}
+var collisionCols = map[string][]string{"row_a": {"s", "n"}, "row_b": {"p_s", "p_n"}, "row_c": {"i_n_s", "tx", "sc", "p_tx", "p_sc"}}
+
 func gen(t *rapid.T) built {
+	collide := rapid.IntRange(0, 4).Draw(t, "collide") == 0
+	if collide {
+		defer sw.WithStrings(collisionPool)()
+	}
 	b := built{table: rapid.SampledFrom(sw.Tables).Draw(t, "table"), contexts: rapid.SampledFrom([]int{1, 1, 2, 3}).Draw(t, "contexts"), slowSelectUs: rapid.SampledFrom([]int{0, 0, 300, 1500}).Draw(t, "slowselect"), abandoned: rapid.SampledFrom([]int{0, 0, 0, 1, 3}).Draw(t, "abandoned")}
 	n := rapid.IntRange(0, 12).Draw(t, "nrows")
 	for i := 0; i < n; i++ {
@@ -228,6 +243,15 @@ func gen(t *rapid.T) built {
 		}
 		k := rapid.IntRange(0, 3).Draw(t, "ncols")
 		cols := rapid.SliceOfNDistinct(rapid.SampledFrom(filterCols[b.table]), k, k, rapid.ID[string]).Draw(t, "cols")
+		if collide && rapid.IntRange(0, 3).Draw(t, "textcols") > 0 {
+			// the same one or two text columns in most calls of a collision case
+			cc := collisionCols[b.table]
+			k = rapid.IntRange(1, 2).Draw(t, "ntext")
+			cols = append([]string(nil), cc[:k]...)
+			if len(cc) > 2 && rapid.Bool().Draw(t, "othertext") {
+				cols = rapid.SliceOfNDistinct(rapid.SampledFrom(cc), k, k, rapid.ID[string]).Draw(t, "textcolset")
+			}
+		}
 		var src reflect.Value
 		if len(b.rows) > 0 && rapid.IntRange(0, 4).Draw(t, "fromrow") > 0 {
 			src = reflect.ValueOf(b.rows[rapid.IntRange(0, len(b.rows)-1).Draw(t, "srcrow")]).Elem()
